@@ -33,6 +33,8 @@ pub enum Edit {
     /// replace the character at byte offset `pos` of annotation `line` by `ch`
     AnnChar(usize, usize, char),
     AnnTruncateList(usize),
+    /// the (first) hex payload of annotation `line` replaced by this hex string (values at and above the field prime)
+    AnnValue(usize, String),
     /// set a JSON path of the document to a value
     Set(String, Value),
     Remove(String),
@@ -62,6 +64,7 @@ impl Edit {
             Edit::AnnSwapNext(i) => format!("swap-next:{}", ann_class(i)),
             Edit::AnnChar(i, _, c) => format!("char-{}:{}", if *c == 'g' { "badhex" } else if *c == 'f' { "lead-f" } else { "hexdigit" }, ann_class(i)),
             Edit::AnnTruncateList(i) => format!("truncate-list:{}", ann_class(i)),
+            Edit::AnnValue(i, _) => format!("value-not-below-prime:{}", ann_class(i)),
             Edit::Set(p, _) => format!("set:{}", jw::path_class(&jw::parse_path(p))),
             Edit::Remove(p) => format!("remove:{}", jw::path_class(&jw::parse_path(p))),
             Edit::RenameKey(p, _, _) => format!("rename-key:{}", p),
@@ -78,6 +81,7 @@ impl Edit {
             Edit::AnnSwapNext(i) => json!({"e": "ann-swap-next", "line": i}),
             Edit::AnnChar(i, p, c) => json!({"e": "ann-char", "line": i, "pos": p, "ch": c.to_string()}),
             Edit::AnnTruncateList(i) => json!({"e": "ann-truncate-list", "line": i}),
+            Edit::AnnValue(i, h) => json!({"e": "ann-value", "line": i, "hex": h}),
             Edit::Set(p, v) => json!({"e": "set", "path": p, "value": v}),
             Edit::Remove(p) => json!({"e": "remove", "path": p}),
             Edit::RenameKey(p, a, b) => json!({"e": "rename-key", "path": p, "from": a, "to": b}),
@@ -96,6 +100,7 @@ impl Edit {
             "ann-swap-next" => Edit::AnnSwapNext(u("line")?),
             "ann-char" => Edit::AnnChar(u("line")?, u("pos")?, s("ch")?.chars().next()?),
             "ann-truncate-list" => Edit::AnnTruncateList(u("line")?),
+            "ann-value" => Edit::AnnValue(u("line")?, s("hex")?),
             "set" => Edit::Set(s("path")?, v.get("value")?.clone()),
             "remove" => Edit::Remove(s("path")?),
             "rename-key" => Edit::RenameKey(s("path")?, s("from")?, s("to")?),
@@ -132,6 +137,11 @@ impl Edit {
                 }
                 b[*pos] = *ch;
                 d["annotations"][*i] = Value::String(b.into_iter().collect());
+            }
+            Edit::AnnValue(i, h) => {
+                let s = d["annotations"][*i].as_str()?.to_string();
+                let (first, last, _) = hex_positions(&s)?;
+                d["annotations"][*i] = Value::String(format!("{}{}{}", &s[..first], h, &s[last + 1..]));
             }
             Edit::AnnTruncateList(i) => {
                 let s = d["annotations"][*i].as_str()?.to_string();
@@ -232,6 +242,14 @@ fn annotation_edits(doc: &Value, quick: bool) -> Vec<Edit> {
             out.push(Edit::AnnChar(i, last, 'g'));
             let cur = s.chars().nth(last).unwrap();
             out.push(Edit::AnnChar(i, last, if cur == '1' { '2' } else { '1' }));
+            // the field prime + 5 (a 252-bit number that is not a field element); 2^252 - 1 in the thorough tier
+            if len >= 40 && (!quick || i % 4 == 0) {
+                out.push(Edit::AnnValue(i, "800000000000011000000000000000000000000000000000000000000000006".into()));
+                if !quick {
+                    out.push(Edit::AnnValue(i, "fffffffffffffffffffffffffffffffffffffffffffffffffffffffffffffff".into()));
+                    out.push(Edit::AnnValue(i, "800000000000011000000000000000000000000000000000000000000000001".into()));
+                }
+            }
             if !quick {
                 if len >= 63 {
                     out.push(Edit::AnnChar(i, first, 'f'));
@@ -453,7 +471,7 @@ pub fn run(ctx: &Ctx) -> Report {
         if quick && pf.loaded.meta.layout == "dynamic" {
             // the dynamic file is the largest (3.1k lines, 340 parameters): every 8th line in the quick tier
             edits.retain(|e| match e {
-                Edit::AnnDelete(i) | Edit::AnnChar(i, _, _) => i % 8 == 0,
+                Edit::AnnDelete(i) | Edit::AnnChar(i, _, _) | Edit::AnnValue(i, _) => i % 8 == 0,
                 _ => true,
             });
             rep.cap("quick tier: annotation edits of the dynamic file restricted to every 8th line (all lines in thorough)");
